@@ -459,7 +459,7 @@ class Job:
     def _decide(self, name, t, info):
         e = core.eng()
         neg = z3.Not(t)
-        r = e._check(neg)
+        r = e._check(neg, retry='always')
         self._sample(name, neg, r)
         if r == z3.unsat:
             self.n_discharged += 1
@@ -494,7 +494,7 @@ class Job:
             if not new:
                 break
             facts += new
-            r = e._check(neg, *facts)
+            r = e._check(neg, *facts, retry='always')
             if r == z3.unsat:
                 self.n_discharged += 1
                 return
@@ -618,10 +618,10 @@ def run_job(args):
                     (job.path_index % spec.witness_every == 0 or job.path_index <= 3):
                 try:
                     e._trim()
-                    e.solver.set('timeout', 4000)
+                    e.set_timeout(4000)
                     r = e.solver.check()           # (no retry: a witness that is expensive to find is skipped)
                 finally:
-                    e.solver.set('timeout', e.check_timeout_ms)
+                    e.set_timeout()
                 if r == z3.sat:
                     model = e.solver.model()
                     inputs = {k: model_value(model, v) for k, v in e.inputs.items()}
